@@ -342,7 +342,7 @@ func checkOps(c opsCase) (fw.Outcome, *fw.Violation) {
 
 func TestC06Operators(t *testing.T) {
 	fw.Run(t, fw.Spec[opsCase]{
-		ID: "C06", Name: "operators", Quick: 16000, Thorough: 500000,
+		ID: "C06", Name: "operators", Quick: 16000, Thorough: 400000,
 		Gen: genOps, Check: checkOps,
 		Rule: "triples (70% numeric-looking incl. structurally generated numeric text, 30% any class), two arithmetic operators and one relational operator (!= included): -a, +a, - -a, -a op b, a op -b, !a, ! !a, NOT a, !a cmp b, NOT a cmp b, a <> b vs a != b, a op1 b op2 c, a op1 b cmp c, c cmp a op1 b, a OR b AND c, a AND b OR c, NOT a AND/OR b, !a AND b, a cmp b AND b cmp c, a cmp b OR c, c OR a cmp b, all WITHOUT parentheses; oracle: a typed reference evaluation (integer when both operands are integers, float when both numeric, NULL otherwise, error on integer / and % by zero, IEEE floats, truncated modulo; comparisons by the ladder model; Kleene logic over the documented ternary conversion) of the expression grouped by the manual's precedence table; non-trivial = the arithmetic chain is inside the stated domain, distinct by (classes, the two arithmetic operators, result kinds of -a / a op1 b / chain)",
 		Assumptions: []string{"int64 overflow, -(-9223372036854775808) and inexact integer quotients are outside the stated domain: the affected items are evaluated but not judged",
